@@ -1017,6 +1017,8 @@ class Interp:
             raise Unsupported(f"attribute of a value that depends on an undecided test ({v.desc})")
         if isinstance(v, Opaque):
             return Opaque(v.name + "." + name)
+        if v is None:
+            raise PyRaise("AttributeError", f"None has no attribute {name}")
         raise Unsupported(f"attribute {name} of {type(v).__name__}")
 
     def _ever_assigned(self, cls, name):
@@ -1415,6 +1417,8 @@ class Interp:
             return base[k]
         if isinstance(base, Und):
             raise Unsupported(f"subscript of a value that depends on an undecided test ({base.desc})")
+        if base is None or isinstance(base, (bool, int, Rat)) or (isinstance(base, Opaque) and base.inert):
+            raise PyRaise("TypeError", f"{base!r} is not subscriptable")
         raise Unsupported(f"subscript of {type(base).__name__}")
 
     def binop(self, op, a, b):
